@@ -763,6 +763,70 @@ def relabel_stream(run, rng, thorough):
     switch_build("omp")
 
 
+# --------------------------------------------------------------------------
+# error-path states: after a rejected assignment every access route must agree (all raise, or all the same phonons)
+# --------------------------------------------------------------------------
+
+def error_path_states(run, rng, thorough):
+    import phonopy
+
+    q = np.array([0.1, 0.2, 0.3])
+    path = [[[0.1, 0, 0], [0.2, 0.1, 0]]]
+
+    def routes(ph):
+        out = {}
+        for name, fn in (
+            ("run_qpoints", lambda: (ph.run_qpoints([q]), ph.get_qpoints_dict()["frequencies"][0])[1]),
+            ("run_band_structure", lambda: (ph.run_band_structure([[list(q), list(q + 0.05)]]), ph.get_band_structure_dict()["frequencies"][0][0])[1]),
+            ("run_mesh+qpoint", lambda: (ph.run_mesh([1, 1, 1], shift=None, is_gamma_center=True), ph.get_frequencies(q))[1]),
+            ("get_frequencies", lambda: ph.get_frequencies(q)),
+            ("get_frequencies_with_eigenvectors", lambda: ph.get_frequencies_with_eigenvectors(q)[0]),
+            ("get_dynamical_matrix_at_q", lambda: np.sort(np.linalg.eigvalsh(np.array(ph.get_dynamical_matrix_at_q(q))))),
+            ("group velocities", lambda: (ph.run_qpoints([q], with_group_velocities=True), ph.get_qpoints_dict()["frequencies"][0])[1]),
+        ):
+            try:
+                out[name] = ("value", np.array(fn(), dtype=float))
+            except Exception as ex:      # the route refuses to answer in this state
+                out[name] = ("raise", type(ex).__name__)
+        return out
+
+    n_states = 0
+    for cellname in (["nacl_prim", "cscl"] if not thorough else ["nacl_prim", "cscl", "zincblende_prim", "wurtzite"]):
+        for method in ("wang", "gonze"):
+            cell, _ = gen.make_cell(cellname)
+            ph = phonopy.Phonopy(cell, supercell_matrix=np.diag([2, 1, 1]), primitive_matrix="P", log_level=0)
+            ph.force_constants = gen.pair_fc(ph.supercell, 1.45 * nn_distance(ph.primitive))
+            n = len(ph.primitive)
+            good = {"born": np.array([np.eye(3) * (1.2 if i % 2 == 0 else -1.2 * (n // 2 + n % 2) / max(n // 2, 1)) for i in range(n)]), "dielectric": np.eye(3) * 2.3, "factor": 14.4, "method": method}
+            ph.nac_params = good
+            ph.run_qpoints([q], with_group_velocities=True)      # a fully built state (dynamical matrix + group velocity object)
+            bads = [("born charges for n+1 atoms", dict(good, born=np.array([np.eye(3)] * (n + 1)))),
+                    ("dict without dielectric", {"born": good["born"], "factor": 14.4, "method": method}),
+                    ("dict without factor", {"born": good["born"], "dielectric": good["dielectric"], "method": method})]
+            for label, bad in bads:
+                exc = None
+                try:
+                    ph.nac_params = bad
+                except Exception as ex:
+                    exc = type(ex).__name__
+                res = routes(ph)
+                n_states += 1
+                run.count("error-path states (assignment %s)" % ("rejected" if exc else "accepted"), section="oracle")
+                run.case(("error-state", cellname, method, label), nontrivial=exc is not None)
+                kinds = {k: v[0] for k, v in res.items()}
+                info = dict(cell=cellname, nac=method, rejected_assignment=label, exception=exc, routes={k: (v[1] if v[0] == "raise" else "value") for k, v in res.items()})
+                vals = [v[1] for v in res.values() if v[0] == "value"]
+                if len(set(kinds.values())) > 1:
+                    run.violation("Phonopy.nac_params setter", "routes-disagree-after-rejected-assignment",
+                                  "after `nac_params = <%s>` (%s) some access routes answer with phonons of an earlier state while others raise: %s" % (label, exc or "no exception", info["routes"]), info)
+                elif vals and any(not _close(_lam(np.sort(v), ph.unit_conversion_factor), _lam(np.sort(vals[0]), ph.unit_conversion_factor)) for v in vals[1:]):
+                    run.violation("Phonopy.nac_params setter", "routes-disagree-after-rejected-assignment", "after a rejected assignment the access routes report different frequencies", info)
+                # back to a valid state for the next probe
+                ph.nac_params = good
+                ph.run_qpoints([q], with_group_velocities=True)
+    run.cov["oracle"]["error-path states probed"] = n_states
+
+
 def main(run):
     rng = run.rng
     thorough = run.tier == "thorough"
@@ -1038,6 +1102,9 @@ def main(run):
 
     # ---------------- Gamma with NAC per path, group-velocity perturbation, writers' field lists
     gamma_and_writers(run, rng, thorough, multi_lines, multi_expect)
+
+    # ---------------- error-path states
+    error_path_states(run, rng, thorough)
 
     # ---------------- description invariance (left-handed / sheared lattice vectors)
     relabel_stream(run, rng, thorough)
